@@ -28,7 +28,9 @@ D3 == [name |-> cB, vstr |-> c01, ver |-> <<0, 1>>, src |-> "url", href |-> <<10
        links |-> <<>>, scripts |-> <<<<106, 46, 106, 115>>>>, head |-> <<>>]
 HC == [name |-> <<104, 99>>, vstr |-> c00, ver |-> <<0, 0>>, src |-> "none", href |-> <<>>, metas |-> <<>>, links |-> <<>>,
        scripts |-> <<>>, head |-> <<Tag("title", <<>>, <<Text(<<84>>)>>)>>]
-DepOf(k) == CASE k = "d1" -> D1 [] k = "d2" -> D2 [] k = "d3" -> D3 [] k = "hc" -> HC
+D0 == [name |-> <<109>>, vstr |-> <<48, 46, 51>>, ver |-> <<0, 3>>, src |-> "none", href |-> <<>>, metas |-> <<>>, links |-> <<>>,
+       scripts |-> <<>>, head |-> <<>>]
+DepOf(k) == CASE k = "d0" -> D0 [] k = "d1" -> D1 [] k = "d2" -> D2 [] k = "d3" -> D3 [] k = "hc" -> HC
 
 RECURSIVE ToNode(_)
 ToNode(x) ==
